@@ -295,7 +295,8 @@ func RunC01(prop string, tr *Trace, sc *Script, rec *Recorder, scratch string) (
 			opts.Nonce = new(big.Int).SetUint64(nextNonce)
 			nextNonce++
 			var tx *ethtypes.Transaction
-			if r.Bool(50) { // native asset: leaf type 0, origin address 0, empty metadata
+			native := r.Bool(50)
+			if native { // native asset: leaf type 0, origin address 0, empty metadata
 				d.LeafType = 0
 				d.Amount = new(big.Int).SetUint64(r.U64() % 1000000000)
 				if r.Bool(20) {
@@ -305,14 +306,25 @@ func RunC01(prop string, tr *Trace, sc *Script, rec *Recorder, scratch string) (
 					d.Amount = new(big.Int).Lsh(big.NewInt(1), uint(r.Intn(150)))
 				}
 				d.Metadata = []byte{}
-				opts.Value = d.Amount
-				tx, err = bridge.BridgeAsset(&opts, d.DestNet, d.DestAddr, d.Amount, common.Address{}, false, []byte{})
 			} else { // message: leaf type 1, origin address = sender, arbitrary metadata
 				d.LeafType = 1
 				d.OrigAddr = auth.From
 				d.Amount = new(big.Int).SetUint64(r.U64() % 1000)
 				d.Metadata = genMeta(r)
-				opts.Value = d.Amount
+			}
+			// the same bridge made again (the leaf value does not contain the deposit count):
+			// equal leaves at two positions of the exit tree
+			if len(refDeposits) > 0 && r.Bool(18) {
+				pd := refDeposits[len(refDeposits)-1-r.Intn(min(len(refDeposits), 4))]
+				d = refDeposit{LeafType: pd.LeafType, OrigNet: pd.OrigNet, OrigAddr: pd.OrigAddr, DestNet: pd.DestNet, DestAddr: pd.DestAddr,
+					Amount: new(big.Int).Set(pd.Amount), Metadata: append([]byte{}, pd.Metadata...)}
+				native = d.LeafType == 0
+				rec.Stats.Inc("repeated_deposits")
+			}
+			opts.Value = d.Amount
+			if native {
+				tx, err = bridge.BridgeAsset(&opts, d.DestNet, d.DestAddr, d.Amount, common.Address{}, false, []byte{})
+			} else {
 				tx, err = bridge.BridgeMessage(&opts, d.DestNet, d.DestAddr, false, d.Metadata)
 			}
 			if err != nil {
